@@ -8,7 +8,7 @@ import re
 
 from ural.ensure_protocol import ensure_protocol
 from ural.get_hostname import get_hostname
-from ural.patterns import DOMAIN_TEMPLATE, QUERY_VALUE_IN_URL_TEMPLATE
+from ural.patterns import DOMAIN_TEMPLATE, QUERY_VALUE_IN_URL_TEMPLATE, ASCII
 
 from ural.utils import (
     safe_parse_qs,
@@ -27,7 +27,11 @@ BASE_FACEBOOK_URL = "https://www.facebook.com"
 
 FACEBOOK_ID_RE = re.compile(r"^\d+$")
 FACEBOOK_FULL_ID_RE = re.compile(r"^\d+_\d+$")
-FACEBOOK_DOMAIN_RE = re.compile(r"(?:^|\.)(?:facebook\.[^.\s]+|fb\.me)\s*$", re.I)
+# NOTE: hostnames are matched caselessly over ascii letters only (with re.I alone,
+# "tw\u0131tter.com", with a dotless i, is read as "twitter.com")
+FACEBOOK_DOMAIN_RE = re.compile(
+    r"(?:^|\.)(?:facebook\.[^.\s]+|fb\.me)\s*$", re.I | ASCII
+)
 FACEBOOK_URL_RE = re.compile(
     DOMAIN_TEMPLATE % r"(?:[^.]+\.)*(?:facebook\.[^.]+|fb\.me)", re.I
 )
